@@ -20,7 +20,7 @@ import (
 	"time"
 
 	"risorcheck/core"
-	_ "risorcheck/rules"
+	"risorcheck/rules"
 )
 
 type subResult struct {
@@ -43,7 +43,20 @@ func main() {
 	flag.StringVar(&o.Load.Dir, "moddir", "", "module directory relative to repo root")
 	flag.BoolVar(&sub, "sub", false, "sub-run: print JSON outcome, write no evidence")
 	flag.BoolVar(&list, "list", false, "list registered properties and rules")
+	var hints bool
+	flag.BoolVar(&hints, "fieldhints", false, "print the table of field types that rules/fieldhints.go freezes (fields whose type is unique in their struct)")
 	flag.Parse()
+	if hints {
+		lc := o.Load
+		lc.Root = o.Repo
+		prog, err := core.Load(lc)
+		if err != nil {
+			fmt.Fprintln(os.Stderr, err)
+			os.Exit(2)
+		}
+		rules.DumpFieldHints(prog)
+		return
+	}
 	if list {
 		for _, id := range core.Properties() {
 			p := core.Lookup(id)
